@@ -152,6 +152,8 @@ struct RScene {
 // grid scene: cells of side c, chosen cells get a rectangle with integer corners at distance >= 1 from the
 // cell border; connector ends are integer points ON cell border lines (hence outside every rectangle)
 static bool g_big = false;     // thorough tier: one scene in four is larger
+static bool g_twiceXStage = false; // --mode twice-xstage: route-twice params scenes always with the crossing-penalty stage (finding: address-keyed CrossingConnectorsMap)
+static bool g_exclMulti = false;   // *-params scenes: may an EXCLUSIVE pin class serve several connectors (run-twice / exact-translation classes)
 static RScene genScene(vh::Rng &r, bool orth, int maxShapes, int maxConns) {
     RScene s; s.orth = orth;
     long c = r.range(4, 9);
@@ -820,10 +822,11 @@ static RScene genParamScene(vh::Rng &r, bool orth, int maxConns, bool crossStage
     size_t pinned = 0;
     for (int i = 0; i < nc; ++i) {
         Cn c; bool ok = false;
-        // an EXCLUSIVE class serves one connector per scene: with several, which connector gets which pin is decided greedily
-        // with ties between pin edges broken by EdgeInf addresses (CmpVisEdgeRotation), so per-connector costs are not
-        // reproducible even between two identical runs (reported)
-        if (pinShape >= 0 && (i == 0 || r.coin()) && (!pinsExcl || pinned < 1) && nPins > 0) {
+        // cost-judged symmetry class: an EXCLUSIVE class serves one connector per scene (with several, the pins are handed out
+        // greedily in connector order, and which of two equal-cost pins the first one takes legitimately changes what is left
+        // for the second: per-connector costs need not be frame-invariant).  The run-twice and exact-translation classes
+        // (g_exclMulti) let an exclusive class serve up to as many connectors as it has pins.
+        if (pinShape >= 0 && (i == 0 || r.coin()) && (!pinsExcl || pinned < (g_exclMulti ? nPins : 1)) && nPins > 0) {
             // source = the pin class; far end anywhere free (mostly diagonal from the shape), sometimes in line with the shape's centre
             const R4 &b = s.rects[pinShape];
             c.spin = pinShape; c.scls = 1; c.sx = (b.x0 + b.x1) / 2; c.sy = (b.y0 + b.y1) / 2;
@@ -945,10 +948,14 @@ static void caseRouteTranslateParams(long k, vh::Rng &r) {
     bool orth = r.coin(2, 3);
     // same tags as the plain translation classes (the driver recognises the wider class by its `param` lines)
     vh::beginCase(k, orth ? "route-translate-orth" : "route-translate");
-    // (pin classes: pure translations are frame 8 of route-symmetry-params — among equal-cost routes the search breaks ties
-    //  between pin edges by comparing EdgeInf ADDRESSES, CmpVisEdgeRotation, so exact translation of the route cannot be demanded)
-    bool withPins = false;
-    RScene s = genParamScene(r, orth, 4, r.coin(1, 3), withPins);     // crossing-penalty stage in a third of the scenes (its rerouting order is address dependent once in ~15000 scenes: reported)
+    // pin classes (exclusive ones with several connectors too): since fix 992d05a the search orders dummy pin edges by
+    // position, so the raw routes — chosen pins included — must translate exactly
+    bool xs = r.coin(1, 3);
+    bool withPins = r.coin();
+    g_exclMulti = true;
+    RScene s = genParamScene(r, orth, 4, xs, withPins);
+    g_exclMulti = false;
+    if (withPins) s = placeScene(r, s);     // crossing-penalty stage in a third of the scenes (its rerouting order is address dependent once in ~15000 scenes: reported)
     if (r.coin(1, 3)) {
         s.moveIdx = (int) r.range(0, (long) s.rects.size() - 1);
         s.mdx = (double) r.range(-2, 2) * 0.5; s.mdy = (double) r.range(-2, 2) * 0.5;
@@ -968,6 +975,41 @@ static void caseRouteTranslateParams(long k, vh::Rng &r) {
     printOut("A", a); fflush(stdout);
     Out b = routeScene(frameScene(s, 0, tx, ty));
     printOut("B", b);
+    vh::endCase();
+}
+
+// route-twice on the *-params scenes: all routing parameters / options, pin classes (shared and exclusive, an exclusive class
+// serving several connectors), degenerate alignments; the same API calls twice in one process with heap scrambling and unrelated
+// work in between; routes, display routes and the A* vertex paths (second vertex = the chosen pin) must be bit-identical
+static void caseRouteTwiceParams(long k, vh::Rng &r) {
+    vh::beginCase(k, "route-twice");
+    bool orth = r.coin(2, 3);
+    bool withPins = r.coin(3, 4);
+    g_exclMulti = true;
+    // crossingPenalty / fixedSharedPathPenalty stay 0 here: Router::improveCrossings keeps the crossing connectors in a
+    // std::map<ConnRef *, std::set<ConnRef *> > (router.cpp, CrossingConnectorsMap) and removeConnectorWithMostCrossings breaks
+    // ties (equal crossing count, equal estimated cost) by iteration = ADDRESS order, so which connector is rerouted is not
+    // reproducible (about 1 scene in 5000; reported).  `--mode twice-xstage` switches the stage on in every scene of this class.
+    RScene s = genParamScene(r, orth, 4, g_twiceXStage, withPins);
+    if (g_twiceXStage) { if (s.prm[Avoid::crossingPenalty] < 0) s.prm[Avoid::crossingPenalty] = 16; if (s.prm[Avoid::fixedSharedPathPenalty] < 0 && r.coin()) s.prm[Avoid::fixedSharedPathPenalty] = 110; }
+    g_exclMulti = false;
+    if (withPins) s = placeScene(r, s);
+    s.capture = true;
+    printScene(s);
+    fflush(stdout);
+    Heap heap;
+    long pa = Heap::probe();
+    Out a = routeScene(s);
+    printOut("A", a); fflush(stdout);
+    unrelatedWork(r, heap);
+    // the pin edges, ANodes and visibility-list nodes of run B come back in a random address order
+    static const size_t classes[] = {32, 48, 64, 80, 96, 112, 128, 144, 160};
+    for (size_t c = 0; c < sizeof classes / sizeof classes[0]; ++c) heap.scramble(r, classes[c], 40);
+    long pb = Heap::probe();
+    Out b = routeScene(s);
+    printOut("B", b);
+    printf("heap %ld %ld\n", pa, pb);
+    heap.release();
     vh::endCase();
 }
 
@@ -1387,7 +1429,7 @@ static void caseCmp(long k, vh::Rng &r) {
 int main(int argc, char **argv) {
     vh::Args a = vh::parseArgs(argc, argv);
     bool thorough = a.tier == "thorough";
-    g_big = thorough;
+    g_big = thorough; g_twiceXStage = (a.mode == "twice-xstage");
     long rounds = (thorough ? 1200 : 250) * a.scale;
     if (a.n >= 0) rounds = a.n;
     const int NCLASS = 12;       // caseLayoutTwice relies on this (k / 12 = round)
@@ -1419,11 +1461,12 @@ int main(int argc, char **argv) {
     }
     // classes *-params (all routing parameters / options, degenerate alignments): own index range after `cmp`
     long nsym = (thorough ? 4000 : 1000) * a.scale, ntr = (thorough ? 1500 : 300) * a.scale;
-    for (long j = 0; j < nsym + ntr; ++j) {
+    long ntw = (thorough ? 1200 : 300) * a.scale;
+    for (long j = 0; j < nsym + ntr + ntw; ++j) {
         long k = rounds * NCLASS + ncmp + j;
         if (!a.want(k)) continue;
         vh::Rng r = vh::caseRng(a.seed, (uint64_t) k);
-        if (j < nsym) caseRouteSymmetryParams(k, r); else caseRouteTranslateParams(k, r);
+        if (j < nsym) caseRouteSymmetryParams(k, r); else if (j < nsym + ntr) caseRouteTranslateParams(k, r); else caseRouteTwiceParams(k, r);
     }
     return 0;
 }
